@@ -334,6 +334,11 @@ func makeRole(ps *proofSys, fn *ssa.Function, prover bool) func(v ssa.Value) str
 			return "computed"
 		case *ssa.MakeSlice:
 			return "local:slice"
+		case *ssa.Slice:
+			// x[:] of an array or list denotes the same sequence of values
+			if x.Low == nil && x.High == nil && x.Max == nil {
+				return role(x.X)
+			}
 		}
 		return "?" + cv.Name()
 	}
